@@ -3,12 +3,14 @@
 The answer is computed by the very definitions the theorems in `Omaha/Props` are about.
 -/
 import Omaha.Drv.Version
+import Omaha.Drv.Time
 
 open Omaha Omaha.Drv
 
 def handleLine (line : String) : String :=
   match words line with
   | "version" :: rest => handleVersion rest
+  | "time" :: rest => handleTime rest
   | _ => "bad-op"
 
 partial def loop (h : IO.FS.Stream) (out : IO.FS.Stream) : IO Unit := do
